@@ -126,6 +126,18 @@ TEnd(e) ==   \* a run ends: everybody returned, nothing retained, no goroutine l
   /\ e.entries = 0 /\ e.stuck = 0
   /\ UNCHANGED <<st, ks, md, got>>
 
+(* retention probe: one goroutine locked and unlocked e.n distinct keys one after the other and     *)
+(* kept none of them; e.per1k = bytes the heap kept per 1000 keys (after collections, the smaller  *)
+(* of two rounds).  "Retains no per-key state": the tables are empty and what is kept does not     *)
+(* grow with the number of keys - less than RetainBound bytes per 1000 keys (8 bytes a key would   *)
+(* be 8000; the measuring noise is a few hundred bytes per 1000 keys at n = 40000).               *)
+RetainBound == 4000
+TRetain(e) ==
+  /\ \A p \in Procs : st[p] = "idle"
+  /\ e.n >= 1000 /\ e.entries = 0
+  /\ e.per1k >= 0 /\ e.per1k < RetainBound
+  /\ UNCHANGED <<st, ks, md, got>>
+
 TraceNext ==
   /\ l <= Len(TraceLog) /\ l' = l + 1
   /\ LET e == TraceLog[l] IN
@@ -134,6 +146,7 @@ TraceNext ==
          [] e.ev = "run"   -> TRun(e)
          [] e.ev = "mon"   -> TMon(e)
          [] e.ev = "end"   -> TEnd(e)
+         [] e.ev = "retain" -> TRetain(e)
          [] OTHER -> FALSE
 TraceSpec == Init /\ [][TraceNext]_vars
 
